@@ -4,6 +4,7 @@ C07 — negation witnesses: concrete inputs on which the *full-strength* stateme
 -/
 import WpModel.Model.Declarations
 import WpModel.Model.VarSubst
+import WpModel.Model.PendingC07
 
 namespace Wp.Witness.C07
 open Wp Wp.Decl Wp.Var
@@ -48,5 +49,14 @@ theorem var_fallback_commas_dropped :
     (match subst (fun _ => []) 5 fbTok with
       | some [.ident "Arial", .comma, .ident "sans-serif"] => true | _ => false) = true := by
   decide
+
+/-! ### `html{--a:inherit; width:var(--a)}`: `inherit` out of a var() on the root element -/
+
+/-- On the root element the literal `width: inherit` is the initial value, but the same keyword coming out of
+a `var()` reaches `parent_style[key]` with no parent: `TypeError` (finding `var-inherit-on-root-typeerror`), so
+`C07.pending_valid_as_literal` states its `inherit` clause with a parent only. -/
+theorem var_inherit_on_root :
+    Pending.select (β := Nat) "width" false .inheritKw = .ok .initial ∧
+    Pending.select (β := Nat) "width" false (.pending .inheritKw) = .error .typeError := by decide
 
 end Wp.Witness.C07
